@@ -5,6 +5,7 @@
 package tds
 
 import (
+	"fmt"
 	"sync"
 )
 
@@ -157,6 +158,24 @@ func (queue *PacketQueue) Bytes(n int) ([]byte, error) {
 		return []byte{}, nil
 	}
 
+	if n < 0 {
+		return []byte{}, fmt.Errorf("tds: cannot read %d bytes: %w", n, ErrNotEnoughBytes)
+	}
+
+	// n may stem from a length field sent by the server - never allocate
+	// more than is queued.
+	if unread := queue.unreadBytes(); n > unread {
+		bs := make([]byte, unread)
+		offset := 0
+		for !queue.AllPacketsConsumed() {
+			data := queue.queue[queue.indexPacket].Data
+			offset += copy(bs[offset:], data[queue.indexData:])
+			queue.indexPacket++
+			queue.indexData = 0
+		}
+		return bs, ErrNotEnoughBytes
+	}
+
 	bs := make([]byte, n)
 	// bsOffset is the index in the return slice where data still needs
 	// to be written.
@@ -196,9 +215,28 @@ func (queue *PacketQueue) Bytes(n int) ([]byte, error) {
 	return bs, nil
 }
 
+// unreadBytes returns the number of bytes between the current position
+// and the end of the queue. The caller must hold the lock.
+func (queue *PacketQueue) unreadBytes() int {
+	unread := 0
+	for i := queue.indexPacket; i < len(queue.queue); i++ {
+		unread += len(queue.queue[i].Data)
+	}
+	if queue.indexPacket < len(queue.queue) {
+		unread -= queue.indexData
+	}
+	if unread < 0 {
+		unread = 0
+	}
+	return unread
+}
+
 // Byte implements the tds.BytesChannel interface.
 func (queue *PacketQueue) Byte() (byte, error) {
 	bs, err := queue.Bytes(1)
+	if err != nil {
+		return 0, err
+	}
 	return bs[0], err
 }
 
@@ -217,6 +255,9 @@ func (queue *PacketQueue) Int8() (int8, error) {
 // Uint16 implements the tds.BytesChannel interface.
 func (queue *PacketQueue) Uint16() (uint16, error) {
 	bs, err := queue.Bytes(2)
+	if err != nil {
+		return 0, err
+	}
 	return endian.Uint16(bs), err
 }
 
@@ -229,6 +270,9 @@ func (queue *PacketQueue) Int16() (int16, error) {
 // Uint32 implements the tds.BytesChannel interface.
 func (queue *PacketQueue) Uint32() (uint32, error) {
 	bs, err := queue.Bytes(4)
+	if err != nil {
+		return 0, err
+	}
 	return endian.Uint32(bs), err
 }
 
@@ -241,6 +285,9 @@ func (queue *PacketQueue) Int32() (int32, error) {
 // Uint64 implements the tds.BytesChannel interface.
 func (queue *PacketQueue) Uint64() (uint64, error) {
 	bs, err := queue.Bytes(8)
+	if err != nil {
+		return 0, err
+	}
 	return endian.Uint64(bs), err
 }
 
